@@ -1,12 +1,102 @@
 import IpaVerif.Model.Util
-/-! Line-protocol handlers for property C11 (model side). Import-free. -/
+import IpaVerif.Model.Dedup
+import IpaVerif.Generated.Dedup
+/-! Line-protocol handlers for property C11 (model side + spec-side oracle). Import-free. -/
 namespace IpaVerif.Driver.C11
-open IpaVerif.Util
+open IpaVerif.Util IpaVerif.Dedup
 
-/-- `some response` if the request belongs to this property, else `none`. -/
-def handle (_toks : List String) : Option String := none
+def showVerdict : Option Nat → String
+  | none => "ok"
+  | some k => s!"dup:{k}"
 
-/-- Property oracle on (request, implementation response): `some "holds"`, `some "fails <why>"`, or `none`. -/
-def oracle (_toks : List String) (_impl : String) : Option String := none
+/-- a sequence of `check_duplicate` calls, reporting each verdict -/
+def seqVerdicts (v : Validator) : List Nat → List String
+  | [] => []
+  | t :: rest =>
+    let (v', r) := checkDuplicate v t
+    showVerdict r :: seqVerdicts v' rest
+
+def parseTagLists (s : String) : Option (List (List Nat)) := (s.splitOn "/").mapM parseNatList
+
+def handle (toks : List String) : Option String :=
+  match toks with
+  | ["c11.pick", hex, n] => some <| (do
+      let bytes ← parseHexBytes hex
+      if bytes.length != IpaVerif.Generated.Dedup.tagSize then none else
+      match shardPicker (tagOfBytes bytes) (← n.toNat?) with
+      | some r => pure (toString r)
+      | none => pure "panic").getD "bad-request"
+  | ["c11.seq", tags] => some <| (do
+      let ts ← parseNatList tags
+      pure (String.intercalate "," (seqVerdicts {} ts))).getD "bad-request"
+  | ["c11.batch", tags] => some <| (do
+      let ts ← parseNatList tags
+      pure (showVerdict (checkDuplicates {} ts).2)).getD "bad-request"
+  | ["c11.path", n, tags] => some <| (do
+      let n ← n.toNat?
+      let ls ← parseTagLists tags
+      if ls.length != n then none else
+      let out := (List.range n).map fun d => showVerdict (detect n (fun s => ls.getD s []) d)
+      pure (String.intercalate "/" out)).getD "bad-request"
+  | ["c11.e2e", n, lists] => some <| (do
+      let n ← n.toNat?
+      let ls ← parseTagLists lists
+      if ls.length != n then none else
+      -- distinct report indices stand for distinct tags (TagInjective); a repeated index is the same ciphertext
+      let verdicts := (List.range n).map fun d => detect n (fun s => ls.getD s []) d
+      -- NOTE: the model routes by `index mod n`; the real tags are random, so only the verdict is compared
+      pure (if verdicts.any Option.isSome then "rejected:on-picker-shard" else "accepted")).getD "bad-request"
+  | _ => none
+
+/-! Spec-side oracle (independent of the model): a shard must report a duplicate iff two of the
+tags routed to it (tag mod n) are equal; the reported index must point at a tag that occurred
+before; inputs whose tags are pairwise distinct are never rejected. -/
+def hasDup : List Nat → Bool
+  | [] => false
+  | t :: rest => rest.contains t || hasDup rest
+
+def oracle (toks : List String) (impl : String) : Option String :=
+  match toks with
+  | ["c11.pick", hex, n] => some <| (do
+      let bytes ← parseHexBytes hex
+      let n ← n.toNat?
+      if n == 0 then pure (if impl.startsWith "panic" then "holds" else "fails shard count 0 accepted") else
+      let r ← impl.toNat?
+      pure (if r < n && (ofLeBytes bytes + (n - r)) % n == 0 then "holds" else s!"fails shard {r} is not tag mod {n}")).getD "unknown"
+  | ["c11.batch", tags] => some <| (do
+      let ts ← parseNatList tags
+      if hasDup ts then pure (if impl.startsWith "dup:" then "holds" else "fails duplicate tag not reported")
+      else pure (if impl == "ok" then "holds" else "fails pairwise distinct tags rejected")).getD "unknown"
+  | ["c11.seq", tags] => some <| (do
+      let ts ← parseNatList tags
+      let vs := impl.splitOn ","
+      if ts.isEmpty then pure "holds" else
+      if vs.length != ts.length then pure "fails wrong number of verdicts" else
+      let ok := (List.range ts.length).all fun i =>
+        let seenBefore := (ts.take i).contains (ts.getD i 0)
+        (vs.getD i "") == (if seenBefore then s!"dup:{i + 1}" else "ok")
+      pure (if ok then "holds" else "fails a verdict differs from 'tag was checked before'")).getD "unknown"
+  | ["c11.path", n, tags] => some <| (do
+      let n ← n.toNat?
+      let ls ← parseTagLists tags
+      if impl.startsWith "timeout" || impl.startsWith "panic" then pure s!"fails did not complete: {impl}" else
+      let vs := impl.splitOn "/"
+      if vs.length != n then pure "fails wrong number of shard verdicts" else
+      let all := ls.flatten
+      let ok := (List.range n).all fun d =>
+        let mine := all.filter (· % n == d)
+        (vs.getD d "").startsWith "dup:" == hasDup mine
+      let anyDup := vs.any (·.startsWith "dup:")
+      if !ok then pure "fails some shard's verdict differs from 'two equal tags are routed to it'"
+      else if anyDup != hasDup all then pure "fails duplicate across the whole input not detected (or distinct input rejected)"
+      else pure "holds").getD "unknown"
+  | ["c11.e2e", _n, lists] => some <| (do
+      let ls ← parseTagLists lists
+      if hasDup ls.flatten then
+        pure (if impl == "rejected:on-picker-shard" then "holds"
+              else if impl.startsWith "rejected" then "fails duplicate reported by a shard other than shard_picker(tag)"
+              else s!"fails the same encrypted report was submitted twice but the query was not rejected ({impl})")
+      else pure (if impl == "accepted" then "holds" else s!"fails pairwise distinct reports were not accepted ({impl})")).getD "unknown"
+  | _ => none
 
 end IpaVerif.Driver.C11
